@@ -807,36 +807,34 @@ func (c *Compiler) compileUTF84ByteRange(lo, hi rune, endState StateID) []StateI
 		return starts
 	}
 
-	// UTF-8 4-byte encoding: 11110xxx 10xxxxxx 10xxxxxx 10xxxxxx
-	// For simplicity, use a conservative approach: match any valid 4-byte sequence in range
-	// This creates more states but is correct
+	return c.splitUTF84ByteRange(lo, hi, endState, starts)
+}
 
-	loLead := byte(0xF0 | (lo >> 18))
-	hiLead := byte(0xF0 | (hi >> 18))
-
-	for leadVal := loLead; leadVal <= hiLead; leadVal++ {
-		// Determine cont1 range for this lead byte
-		var c1Lo, c1Hi byte
-		if leadVal == 0xF0 {
-			c1Lo = 0x90 // F0 requires cont1 >= 0x90
-		} else {
-			c1Lo = 0x80
+// splitUTF84ByteRange splits [lo, hi] (both 4-byte code points) into sub-ranges in
+// which every byte position of the UTF-8 encoding 11110xxx 10xxxxxx 10xxxxxx 10xxxxxx
+// runs over a plain interval, and adds one lead-cont1-cont2-cont3 chain per sub-range:
+// for each number i of trailing continuation bytes either lo and hi agree above them,
+// or they cover the full 0x80-0xBF blocks there.
+func (c *Compiler) splitUTF84ByteRange(lo, hi rune, endState StateID, starts []StateID) []StateID {
+	for i := uint(1); i <= 3; i++ {
+		m := rune(1)<<(6*i) - 1
+		if lo&^m == hi&^m {
+			continue
 		}
-		if leadVal == 0xF4 {
-			c1Hi = 0x8F // F4 requires cont1 <= 0x8F
-		} else {
-			c1Hi = 0xBF
+		if lo&m != 0 {
+			starts = c.splitUTF84ByteRange(lo, lo|m, endState, starts)
+			return c.splitUTF84ByteRange((lo|m)+1, hi, endState, starts)
 		}
-
-		// Build states for each lead byte value
-		cont3 := c.builder.AddByteRange(0x80, 0xBF, endState)
-		cont2 := c.builder.AddByteRange(0x80, 0xBF, cont3)
-		cont1 := c.builder.AddByteRange(c1Lo, c1Hi, cont2)
-		lead := c.builder.AddByteRange(leadVal, leadVal, cont1)
-		starts = append(starts, lead)
+		if hi&m != m {
+			starts = c.splitUTF84ByteRange(lo, (hi&^m)-1, endState, starts)
+			return c.splitUTF84ByteRange(hi&^m, hi, endState, starts)
+		}
 	}
-
-	return starts
+	cont3 := c.builder.AddByteRange(0x80|byte(lo&0x3F), 0x80|byte(hi&0x3F), endState)
+	cont2 := c.builder.AddByteRange(0x80|byte((lo>>6)&0x3F), 0x80|byte((hi>>6)&0x3F), cont3)
+	cont1 := c.builder.AddByteRange(0x80|byte((lo>>12)&0x3F), 0x80|byte((hi>>12)&0x3F), cont2)
+	lead := c.builder.AddByteRange(0xF0|byte(lo>>18), 0xF0|byte(hi>>18), cont1)
+	return append(starts, lead)
 }
 
 // buildUTF8NonASCIIBranches builds NFA branches for all valid UTF-8 multi-byte sequences.
